@@ -280,6 +280,8 @@ class Slicer:
             if body.kind == "Closure" and l == 1:
                 return
         for bb, idx, s in body.defs().get(l, []):
+            if idx != "term" and "*" in (s["p"].get("p") or ()):
+                continue   # a store through a reference held in l is not a definition of l (field atoms stand for it)
             if idx == "term":
                 if s["k"] == "call":
                     out.add("call:" + s["f"])
